@@ -9,7 +9,17 @@ import (
 // R canonicalises a result to bytes: floats by their bits, errors by their
 // text, a panic by its message. C20 does not ask whether an answer is right,
 // only whether it is the same answer.
-type R struct{ b []byte }
+type R struct {
+	b    []byte
+	viol string // an in-call oracle failed (equal-state checks); empty otherwise
+}
+
+// Fail records an in-call oracle failure.
+func (r *R) Fail(format string, a ...any) {
+	if r.viol == "" {
+		r.viol = fmt.Sprintf(format, a...)
+	}
+}
 
 func (r *R) F(x float64) *R {
 	r.b = binary.LittleEndian.AppendUint64(r.b, math.Float64bits(x))
